@@ -13,7 +13,7 @@ a == 97
 Access == << <<>>, <<a>>, <<a, DOT>>, <<DQ>>, <<DQ, a>>, <<DQ, BS>>, <<DQ, a, DQ>>, <<DQ, a, DQ, DOT>>, <<DQ, a, CR>>, <<DQ, a, CR, LF>>,
              <<DQ, SP>>, <<DQ, a, SP>>, <<DQ, BS, DQ>>, <<a, DOT, DQ>>, <<195, 169>>, <<DQ, 195, 169>>, <<195, 169, DOT>>, <<DQ, a, LF>> >>
 Sfx == << <<>>, <<a>>, <<DQ>>, <<DOT, a>>, <<DQ, a>>, <<BS, DQ>>, <<SP, DQ>>, <<a, DQ>>, <<DQ, DOT, a>>, <<DOT>>, <<LF, SP, DQ>> >>
-Bound == {0, 127, 128, 143, 144, 159, 160, 175, 176, 191, 192, 255}
+Bound == {0, 127, 128, 143, 144, 159, 160, 170, 175, 176, 187, 190, 191, 192, 255}
 Second == IF Full THEN 1..255 ELSE Bound \ {0}
 Third == IF Full THEN {127, 128, 159, 160, 191, 192} ELSE {127, 128, 191, 192}
 Ctx(u, c) == CASE c = 1 -> u [] c = 2 -> <<a>> \o u \o <<a>> [] c = 3 -> <<DQ>> \o u \o <<DQ>> [] c = 4 -> <<DQ, BS>> \o u \o <<DQ>>
